@@ -43,6 +43,11 @@ HIGHER = {"jax.lax.scan": ("f", 0), "jax.lax.map": ("f", 0), "jax.lax.while_loop
           ("body_fun", 1), "jax.lax.fori_loop": ("body_fun", 2)}
 
 
+def _baseline():
+    from ..core.terms import baseline_functions
+    return baseline_functions()
+
+
 @dataclass
 class KeyFinding:
     rule: str
@@ -94,7 +99,11 @@ class KeyAnalysis:
         for q, fi in self.repo.functions.items():
             if q.endswith("#setter") or q.endswith("#deleter"):
                 pass
-            if any(fi.qualname.startswith(p) for p in self.scope):
+            # (a function that is not in the baseline list is read through at its call
+            # sites -- terms.baseline_functions -- and judged there, in its caller's context)
+            if any(fi.qualname.startswith(p) for p in self.scope) and (
+                    "<locals>" in fi.qualname or fi.qualname in _baseline()
+                    or not self._has_caller(fi)):
                 out.append(fi)
         # parents before nested functions
         out.sort(key=lambda f: (f.qualname.count("<locals>"), f.qualname))
@@ -259,6 +268,17 @@ class KeyAnalysis:
                 if k is not None and k != c(None):
                     used.add(k)
         return used
+
+    def _has_caller(self, fi) -> bool:
+        name = fi.name
+        for mi in self.repo.modules.values():
+            for x in ast.walk(mi.tree):
+                if isinstance(x, ast.Call):
+                    f = x.func
+                    if (isinstance(f, ast.Name) and f.id == name) or (
+                            isinstance(f, ast.Attribute) and f.attr == name):
+                        return True
+        return False
 
     def run(self):
         fns = self.functions()
@@ -474,10 +494,14 @@ class KeyAnalysis:
         used = self._used_as_key(res)
         uses: dict = {}  # key term -> list of (kind, call term, node, cond)
         dupl = []
+        inlined = {x[2] for x in getattr(res, "inlined", [])}
         for t, node, cond in res.calls:
             tt = t[2] if t[0] == "fresh" else t
             name = fn_name(tt[1]) or ""
             if name in NONCONSUMING:
+                continue
+            if tt in inlined or t in inlined:
+                # a helper that was read through: its own calls are in this list
                 continue
             ks = self._key_args(tt, fi, used)
             if name in DUPLICATORS and ks:
